@@ -82,6 +82,30 @@ fn main() {
             out.flush().unwrap();
             continue;
         }
+        if p.len() >= 4 && p[0] == "into_unit" {
+            // into_unit <s|ms|us|ns> <s|ms|us|ns> <i64>  ->  R <i64> | PANIC <msg>
+            use tevec::prelude::unit::*;
+            let v: i64 = p[3].parse().unwrap();
+            let (f, t) = (p[1].to_string(), p[2].to_string());
+            let r = std::panic::catch_unwind(move || {
+                macro_rules! from { ($U:ty) => { match t.as_str() {
+                    "s" => DateTime::<$U>::new(v).into_unit::<Second>().0,
+                    "ms" => DateTime::<$U>::new(v).into_unit::<Millisecond>().0,
+                    "us" => DateTime::<$U>::new(v).into_unit::<Microsecond>().0,
+                    _ => DateTime::<$U>::new(v).into_unit::<Nanosecond>().0,
+                } } }
+                match f.as_str() { "s" => from!(Second), "ms" => from!(Millisecond), "us" => from!(Microsecond), _ => from!(Nanosecond) }
+            });
+            match r {
+                Ok(x) => writeln!(out, "R {}", x).unwrap(),
+                Err(e) => {
+                    let msg = e.downcast_ref::<String>().cloned().or_else(|| e.downcast_ref::<&str>().map(|s| s.to_string())).unwrap_or_default();
+                    writeln!(out, "PANIC {}", msg.replace('\n', " ")).unwrap()
+                },
+            }
+            out.flush().unwrap();
+            continue;
+        }
         if p.len() >= 3 && p[0] == "half_life" {
             // half_life <min_periods|-> <x0,x1,..>  ->  R <lag> | PANIC <msg>
             let mp: Option<usize> = if p[1] == "-" { None } else { Some(p[1].parse().unwrap()) };
